@@ -1048,6 +1048,15 @@ package statefulset
 //@   lemmas count_bound
 //@   ghost var listed int = 0               -- how many revisions the history listing returned
 //@   at entry: ghost gTrimRan = false
+//@   ghost var hSet *apps.StatefulSet        -- what the reconcile was handed, and what its steps hand on (hand-over clauses below)
+//@   ghost var hPods []*v1.Pod
+//@   ghost var hCur *kubeapps.ControllerRevision
+//@   ghost var hUpd *kubeapps.ControllerRevision
+//@   ghost var hCC int
+//@   ghost var hStatus *apps.StatefulSetStatus
+//@   at entry: ghost hSet = set; ghost hPods = pods
+//@   at call getStatefulSetRevisions#1 after: ghost hCur = cur; ghost hUpd = upd; ghost hCC = cc
+//@   at call updateStatefulSet#1 after: ghost hStatus = statusp
 //@   at call SortControllerRevisions#1 before: ghost listed = len(revisions)
 //@   requires ssc != nil && set != nil && ssc.podControl != nil && ssc.recorder != nil && ssc.csAppsV1 != nil && ssc.statusUpdater != nil
 //@   requires set.Spec.Replicas != nil && deref(set.Spec.Replicas) >= 0 && set.Spec.RevisionHistoryLimit != nil && deref(set.Spec.RevisionHistoryLimit) >= 0 && set.Spec.Selector != nil
@@ -1066,8 +1075,30 @@ package statefulset
 //@   profile defaulted ensures [C12] statusonlyafterreconcile: gStatusWrites > old(gStatusWrites) ==> gStatusWrites == old(gStatusWrites) + 1
 //@   ensures [C13] trimmedall: result == nil ==> gTrimRan && gTrimLen == listed
 
+// hand-over between the steps of a reconcile: each step is verified against its own parameters, so the entry point has
+// to pass on the set and the pod snapshot it was given, the revisions the revision step computed and the status the pod
+// step computed - otherwise the properties proved of the steps say nothing about the reconcile
+//@ func defaultStatefulSetControl.updateStatefulSet@defaultStatefulSetControl.UpdateStatefulSet
+//@   sameas defaultStatefulSetControl.updateStatefulSet
+//@   requires [C02,C03,C04,C05,C07,C08,C12,C14] handover: set == hSet && currentRevision == hCur && updateRevision == hUpd && collisionCount == hCC && len(pods) == len(hPods) && (forall k int :: {pods[k]} 0 <= k && k < len(pods) ==> pods[k] == hPods[k])
+//@ func defaultStatefulSetControl.updateStatefulSetStatus@defaultStatefulSetControl.UpdateStatefulSet
+//@   sameas defaultStatefulSetControl.updateStatefulSetStatus
+//@   requires [C02,C08,C12] handover: set == hSet && status == hStatus
+//@ func defaultStatefulSetControl.truncateHistory@defaultStatefulSetControl.UpdateStatefulSet
+//@   sameas defaultStatefulSetControl.truncateHistory
+//@   requires [C02,C13] handover: set == hSet && current == hCur && update == hUpd && len(pods) == len(hPods) && (forall k int :: {pods[k]} 0 <= k && k < len(pods) ==> pods[k] == hPods[k])
+
+//@ interface StatefulSetControlInterface.UpdateStatefulSet@StatefulSetController.syncStatefulSet
+//@   sameas defaultStatefulSetControl.UpdateStatefulSet
+//@   requires [C03,C04,C10,C12,C13] handover: len(pods) == len(hPods) && (forall k int :: {pods[k]} 0 <= k && k < len(pods) ==> pods[k] == hPods[k])
+//@ func StatefulSetController.syncStatefulSet@StatefulSetController.sync
+//@   sameas StatefulSetController.syncStatefulSet
+//@   requires [C03,C04,C10,C11,C12,C13] handover: set == gSet && len(pods) == len(hClaimed) && (forall k int :: {pods[k]} 0 <= k && k < len(pods) ==> pods[k] == hClaimed[k])
+
 //@ func StatefulSetController.syncStatefulSet
 //@   profiles defaulted, crd
+//@   ghost var hPods []*v1.Pod
+//@   at entry: ghost hPods = pods
 //@   requires ssc != nil && set != nil && ssc.control != nil
 //@   requires set.Spec.Replicas != nil && deref(set.Spec.Replicas) >= 0 && set.Spec.RevisionHistoryLimit != nil && deref(set.Spec.RevisionHistoryLimit) >= 0 && set.Spec.Selector != nil
 //@   requires slotsbound: deref(set.Spec.Replicas) + card(slotsAnn(ifaceOf(set, "*apps.StatefulSet"))) <= MaxInt32
@@ -1089,6 +1120,8 @@ package statefulset
 //@   requires ssc != nil && ssc.setLister != nil && ssc.control != nil && ssc.kubeClient != nil && ssc.pcClient != nil && ssc.podLister != nil && ssc.podControl != nil
 //@   ghost var gSet *apps.StatefulSet = nil
 //@   at call Get#1 after: ghost gSet = result0
+//@   ghost var hClaimed []*v1.Pod           -- the pods the claim step returned
+//@   at call getPodsForStatefulSet#1 after: ghost hClaimed = pods
 //@   free requires crdvalid: forall ns string, name string :: {listerSet(ns, name)} listerSet(ns, name) != nil ==> listerSet(ns, name).Spec.Replicas != nil && deref(listerSet(ns, name).Spec.Replicas) >= 0 && listerSet(ns, name).Spec.RevisionHistoryLimit != nil && deref(listerSet(ns, name).Spec.RevisionHistoryLimit) >= 0 && listerSet(ns, name).Spec.Selector != nil
 //@   free requires sizebound: forall ns string, name string :: {listerSet(ns, name)} listerSet(ns, name) != nil ==> deref(listerSet(ns, name).Spec.Replicas) + card(slotsAnn(ifaceOf(listerSet(ns, name), "*apps.StatefulSet"))) < 1000000000
 //@   profile defaulted free requires defaultedsets: forall ns string, name string :: {listerSet(ns, name)} listerSet(ns, name) != nil ==> (listerSet(ns, name).Spec.UpdateStrategy.Type == "RollingUpdate" || listerSet(ns, name).Spec.UpdateStrategy.Type == "OnDelete") && listerSet(ns, name).Status.ObservedGeneration <= listerSet(ns, name).Generation
